@@ -316,7 +316,12 @@ func printStruct(sb *stringBuilder, s *parser.StructLike, structType string) {
 
 func printConstTypedValue(sb *stringBuilder, ctv *parser.ConstTypedValue) {
 	if ctv.Double != nil {
-		sb.writeString(strconv.FormatFloat(*ctv.Double, 'f', -1, 64))
+		text := strconv.FormatFloat(*ctv.Double, 'f', -1, 64)
+		if !strings.Contains(text, ".") {
+			// keep it a double literal: "9223372036854776000" would be read as an (out of range) integer
+			text += ".0"
+		}
+		sb.writeString(text)
 	} else if ctv.Int != nil {
 		sb.writeString(fmt.Sprintf("%d", *ctv.Int))
 	} else if ctv.Literal != nil {
